@@ -883,8 +883,11 @@ class XPathToken(Token[ta.XPathTokenType]):
 
         def cast_value(v: Any) -> Any:
             try:
-                if isinstance(v, (UntypedAtomic, AnyURI)):
+                if isinstance(v, UntypedAtomic):
                     return token.cast(v)
+                elif isinstance(v, AnyURI):
+                    if type_name == 'string':
+                        return token.cast(v)  # xs:anyURI is promoted to xs:string only
                 elif isinstance(v, (float, DecimalProxy)):
                     if type_name == 'double':
                         return token.cast(v)
